@@ -337,6 +337,8 @@ theorem handleOnConnection (h : KInv cfg k) (fd : Nat) (l r : SockAddr) (s : Seg
           · exact h
         · exact h
         · -- established-like
+          split
+          · exact (h.emit _ _ rfl).remove _
           dsimp only
           have h1 : KInv cfg (k.setSock fd { so with tcb := some (t.handleEstablished cfg s).1 }) := by
             apply h.setSock
